@@ -212,7 +212,7 @@ pub enum VKind {
     Inter,
 }
 
-#[derive(Clone, Debug)]
+#[derive(Clone, Debug, PartialEq, Serialize, Deserialize)]
 pub struct V {
     pub name: String,
     pub dtype: DType,
@@ -230,7 +230,7 @@ impl V {
     }
 }
 
-#[derive(Clone, Debug)]
+#[derive(Clone, Debug, PartialEq, Serialize, Deserialize)]
 pub struct Built {
     pub model: ModelDef,
     pub inputs: Vec<(String, TVal)>,
@@ -1451,5 +1451,25 @@ pub fn build(raw: &RawGraph, profile: &Profile) -> Built {
         outputs: out_ids.iter().map(|i| b.vals[*i].name.clone()).collect(),
         values: b.vals,
         op_types,
+    }
+}
+
+/// A generated case: raw choices while searching, the built model once saved.
+#[derive(Clone, Debug, PartialEq, Serialize, Deserialize)]
+pub enum GraphCase {
+    Raw(RawGraph),
+    Fixed(Box<Built>),
+}
+
+impl GraphCase {
+    pub fn build(&self, profile: &Profile) -> Built {
+        match self {
+            GraphCase::Raw(r) => build(r, profile),
+            GraphCase::Fixed(b) => (**b).clone(),
+        }
+    }
+    /// Self-contained form for replay files.
+    pub fn export(&self, profile: &Profile) -> GraphCase {
+        GraphCase::Fixed(Box::new(self.build(profile)))
     }
 }
